@@ -1,13 +1,19 @@
 """C12 — the reply to RCPT TO follows the documented filter configuration (qsmtpd/commands.c:smtp_rcpt,
 qsmtpd/backends/user_vpopm/getfile.c + vpop.c, lib/control.c loaders)."""
 import runlib as R
+import c12_rfgen as RF
 
 ID = 'C12'
-COQ_TARGETS = ['Props/Properties_C12.vo']
-PROPS_FILES = ['Props/Properties_C12.v']
-THEOREMS = ['C12_combine', 'C12_documented_is_function', 'C12_inherit', 'C12_global_keys', 'C12_syntax', 'C12_plain_files', 'C12_spacebug_sticky', 'C12_refuted', 'C12_spf_temp_class_witness', 'C12_checker_sound_partial', 'C12_unfixed_refuted']
+COQ_TARGETS = ['Props/Properties_C12.vo', 'Props/Properties_C12_filters.vo']
+PROPS_FILES = ['Props/Properties_C12.v', 'Props/Properties_C12_filters.v']
+THEOREMS = ['C12_combine', 'C12_documented_is_function', 'C12_inherit', 'C12_global_keys', 'C12_syntax', 'C12_plain_files', 'C12_spacebug_sticky', 'C12_refuted', 'C12_spf_temp_class_witness', 'C12_checker_sound_partial', 'C12_unfixed_refuted',
+            'C12_getfile_precedence', 'C12_listfile_plain', 'C12_listfile_inherit', 'C12_listfile_total', 'C12_list_entry',
+            'C12_badmailfrom', 'C12_badcc', 'C12_helo', 'C12_ipbl', 'C12_soberg', 'C12_check2822', 'C12_check2822_all', 'C12_nomail',
+            'C12_forceesmtp', 'C12_filters_checker_sound']
 ENGINES = [dict(name='filters', c_sources=['filters_h.c', 'filters_real.c', 'filters_real2.c'], extract='Extract/Extract_filters.v',
-                driver='filters_driver.ml', accepts=lambda c: c.startswith('cc '))]
+                driver='filters_driver.ml', accepts=lambda c: c.startswith('cc ')),
+           dict(name='rfilters', c_sources=['rfilters_h.c', 'rfilters_real.c'], extract='Extract/Extract_rfilters.v',
+                driver='rfilters_driver.ml', accepts=lambda c: c.startswith('fd '))]
 RULE = ('cases = (outcome of each of the 16 filters named in rcpt_cbs[], filterconf bytes at user / domain / global level incl. '
         'absent directory, absent file, empty file, probe key): outcome vectors all-pass / one temporary, error or hard result at '
         'every position / temporary before and after a hard result / whitelist before and after a denial / two different hard '
@@ -214,6 +220,8 @@ def _spacebug(rng):
 
 
 def gen_cases(engine, rng, tier):
+    if engine == 'rfilters':
+        return RF.gen_cases(rng, tier)
     n = 2500 if tier == 'quick' else 40000
     cases = []
     for i in range(n):
@@ -237,6 +245,8 @@ def _kv(c_out):
 
 
 def nontrivial(case, c_out):
+    if case.startswith('fd '):
+        return c_out.startswith('r=') and not c_out.startswith('r=1 ')
     if not c_out.startswith('rc='):
         return False
     kv = _kv(c_out)
@@ -250,7 +260,7 @@ def classify(case, c_out):
     error", and the filter has answered itself with its 451 (which it does when an spfpolicy is in force and
     fail_hard_on_temp is not; Coq: Spec/FiltersSpec.v in_spf_temp_class)."""
     f = case.split()
-    if len(f) != 7 or not c_out.startswith('rc='):
+    if f[0] != 'cc' or len(f) != 7 or not c_out.startswith('rc='):
         return None
     out, sess = R.unhx(f[1]), R.unhx(f[6])
     if len(out) == NF and out[REAL_IDS['spf']] == REAL and len(sess) == 5 and (sess[0] & 15) == SPF_TEMPERROR \
@@ -261,8 +271,15 @@ def classify(case, c_out):
 
 def distribution(results):
     d = {}
+    names = {v: k for k, v in RF.ID.items()}
     for r in results:
         c = r['c']
+        if r['case'].startswith('fd '):
+            k = 'real %s: %s' % (names.get(int(r['case'].split()[1], 16), '?'), c.split()[0])
+            d[k] = d.get(k, 0) + 1
+            s = 'rspec_' + r['spec']
+            d[s] = d.get(s, 0) + 1
+            continue
         if c.startswith('rc='):
             kv = _kv(c)
             if kv.get('ctrlerr') != '0':
